@@ -349,7 +349,10 @@ class Check(PropertyCheck):
         'run) and the meaning Model/MroIR.v gives to its small language; stated assumptions about library calls: deque(iterable) '
         'copies the items in order; d[0]/len/popleft/bool(d) as for a list; islice(d, a, b) consumed at once yields d[a:b]; '
         '`x in it` is any(y == x); any/all/map(lambda) as comprehensions; getbases is a pure function; value semantics '
-        '(mutations are written back to the receiver / to the element of a `for i in s._lists` loop, refused elsewhere)',
+        '(mutations are written back to the receiver / to the element of a `for i in s._lists` or `for i, j in zip(s._lists, e)` '
+        'loop, refused elsewhere); translator normalisations: `while c: B` = `while True: (if c: pass else: break); B`, '
+        '`[a, *b]` = `[a] + b`, `x != y` = `not x == y`, a one-parameter module-level helper function is translated like the '
+        'other bodies and called through EHelper',
         'correspondence harness harness/c05.py + harness/impl/c05_mro.py + harness/impl/c05_builder.py',
         'modelled not verified: which object a base expression denotes (C04/C06); the `_finalbaseobjects is not None` '
         'shortcut of init_finalbaseobjects; Class.allbases on cyclic hierarchies (walks the bases resolved at visit time); '
